@@ -32,11 +32,14 @@ GRID = fm.UniformGrid((3, 4))  # cells: shape (2, 3)
 MASK = np.array([[False, True, False], [False, False, True]])
 
 
+OFFSET = [0.0]  # added to every published value (back-to-back runs publish different data in every run)
+
+
 def payload(kind, t):
     h = float(hrs(t))
     if kind == "scalar":
-        return 1.0 + h * h
-    base = np.arange(6.0).reshape(2, 3) + 10.0 * h + h * h
+        return 1.0 + h * h + OFFSET[0]
+    base = np.arange(6.0).reshape(2, 3) + 10.0 * h + h * h + OFFSET[0]
     if kind == "grid":
         return base
     if kind in ("grid_foreign", "grid_foreign_rate"):
@@ -149,7 +152,7 @@ def chain_for(kind):
     return out
 
 
-def run_one(kind, pk, limit, steps, end, tag, via="composition", order="PC", repush=False):
+def run_one(kind, pk, limit, steps, end, tag, via="composition", order="PC", repush=False, names_out=None):
     """returns (series | ('EXC', cls, msg), files_outside, files_left, spilled_files_seen)"""
     wd = os.path.join(WORK, tag)
     shutil.rmtree(wd, ignore_errors=True)
@@ -192,7 +195,55 @@ def run_one(kind, pk, limit, steps, end, tag, via="composition", order="PC", rep
     finally:
         os.chdir(old)
         shutil.rmtree(wd, ignore_errors=True)
+    if names_out is not None:
+        names_out.update(seen)
     return res, sorted(outside), left, len(seen)
+
+
+def run_back_to_back(case):
+    """process-wide state: R compositions of the same structure run one after the other in ONE process on the same spill location, each
+    publishing different data (offset 1000 x run), the earlier ones finalized and released before the next is built - so slot objects,
+    their ids and therefore spill file names are re-used. Every run must deliver what the same run delivers without memory limit."""
+    import gc
+
+    kind, pk, steps, end, lim, R = case["kind"], case["payload"], tuple(case["steps"]), case["end"], case["limit"], case["runs"]
+    tag = "b2b_%s_%s_%s_%s_%d" % (kind, pk, steps[0], steps[1], os.getpid())
+    res = dict(n=R, nontrivial=0, counters={"back_to_back_runs": R}, violations=[])
+    need = case.get("reuses", 10)
+    res["n"] = 0
+    try:
+        refs = []
+        for r in range(R):
+            OFFSET[0] = 1000.0 * r
+            refs.append(run_one(kind, pk, None, steps, end, tag)[0])
+        gc.collect()
+        prev, hits = set(), 0
+        for r in range(R):
+            # the case ends when `need` runs have re-used a spill file name of the run immediately before them (or after R runs)
+            if hits >= need:
+                break
+            OFFSET[0] = 1000.0 * r
+            names = set()
+            got, _outside, left, _n = run_one(kind, pk, lim, steps, end, tag, names_out=names)
+            gc.collect()
+            res["n"] += 1
+            if names & prev:
+                hits += 1
+                res["nontrivial"] += 1
+            prev = names
+            diff = same_series(refs[r], got)
+            slot = "output" if kind.startswith("direct") else "adapter"
+            if diff:
+                res["violations"].append(viol(dict(kind="back_to_back_run_differs_from_unlimited_run", how=diff, slot=slot), f"run {r} of back-to-back runs, {kind}/{pk}/{steps} limit={lim}: {diff}: {str(got)[:160]}", dict(case, back_to_back=True)))
+                break
+            if left and not isinstance(got, tuple):
+                res["violations"].append(viol(dict(kind="spill_files_left_after_finalize", slot="back_to_back"), f"run {r}: {len(left)} files left: {left[:2]}", dict(case, back_to_back=True)))
+                break
+        res["counters"] = {"back_to_back_runs": res["n"], "runs_reusing_a_spill_file_name_of_the_run_before": hits, "back_to_back_cases_without_enough_name_reuse": 0 if hits >= need or res["violations"] else 1}
+    finally:
+        OFFSET[0] = 0.0
+    res["sample"] = dict(case)
+    return res
 
 
 def run_shared(case):
@@ -311,6 +362,8 @@ def run_case(case):
 
 
 def replay(case):
+    if case.get("back_to_back"):
+        return run_back_to_back(case)["violations"]
     if case.get("shared"):
         return run_shared(case)["violations"]
     return run_case(case)["violations"]
@@ -342,13 +395,16 @@ def run(tier, seed, agg):
         shared = [dict(shared=True, payload=p, steps=list(st), end=6, limit=lim, connect_second_first=cf) for p in ("grid", "masked") for st in ((1, 1), (3, 1), (1, 2)) for lim in (0, 48, 100) for cf in (False, True)]
         for r in pmap(run_shared, shared):
             agg.add(r)
+        b2b = [dict(back_to_back=True, kind=k, payload=p, steps=list(st), end=6, limit=lim, runs=80 if q else 200, reuses=8 if q else 20) for k in ("direct", "Linear", "Avg", "Sum", "Next+D") for p in ("grid", "masked") for st in ((1, 1), (1, 2)) for lim in (0, 48)]
+        for r in pmap(run_back_to_back, b2b):
+            agg.add(r)
     finally:
         shutil.rmtree(WORK, ignore_errors=True)
     return dict(
         level="fault_enumeration",
         rule="slot kind {output, Next, Previous, Linear, Step, Avg, Avg(step), Sum(per_time), Sum(absolute), Sum(linear); the same followed by DelayFixed(2h), DelayFixed upstream of LinearTime; both listing orders} x payload {scalar, 2x3 grid, 2x3 masked} x step pair x memory limit in "
         "{0,1,s-1,s,s+1,...,Ns+1} (every prefix of publications kept in RAM, off-by-one around each threshold), each run through the real Composition and compared with the run without limit; "
-        "limit given composition-wide or per slot (with the composition-wide location); directory listing observed around every producer update and after run(). non-trivial = runs in which at least one spill file was observed",
+        "limit given composition-wide or per slot (with the composition-wide location); compositions of the same structure run back to back in one process on one spill location with different data until 8 (thorough 20) runs have re-used a spill file name of the run before them (slot ids repeat; at most 80/200 runs), each compared with its unlimited run; directory listing observed around every producer update and after run(). non-trivial = runs in which at least one spill file was observed",
         bound=dict(horizon_h=end, step_pairs=pairs, N=4 if q else 7),
         assumptions=["byte size s of one data set = 8 x number of elements", "series compared with rtol 1e-12"],
     )
